@@ -1,10 +1,24 @@
 PROP = dict(
     modules=["Shangrla.Props.C04"],
-    theorems=["Shangrla.C04.fba_sound", "Shangrla.C04.fba_min", "Shangrla.C04.valid_order_not_excluded",
-              "Shangrla.C04.raire_true", "Shangrla.C04.raire_sufficient", "Shangrla.C04.wrong_winner_empty",
-              "Shangrla.C04.raire_empty_of_impossible",
-              "Shangrla.Raire.subsumes_sound", "Shangrla.Raire.mainLoop_spec"],
+    theorems=[
+        # single-node lemmas (Appendix F)
+        "Shangrla.C04.fba_sound", "Shangrla.C04.fba_min", "Shangrla.C04.valid_order_not_excluded",
+        "Shangrla.C04.subsumes_sound", "Shangrla.Raire.chain",
+        # loop invariants S1-S3 (+ O1-O3 carried in the same structure) and their preservation
+        "Shangrla.Raire.manageNode_spec", "Shangrla.Raire.manageNode_anp", "Shangrla.Raire.pruneChecks_spec",
+        "Shangrla.Raire.performDive_spec", "Shangrla.Raire.expandLoop_spec", "Shangrla.Raire.mainLoop_spec",
+        "Shangrla.Raire.init_inv", "Shangrla.Raire.post_spec", "Shangrla.Raire.compute_spec",
+        # the property
+        "Shangrla.C04.raire_true", "Shangrla.C04.raire_sufficient", "Shangrla.C04.raire_empty_iff",
+        "Shangrla.C04.raire_empty_witness", "Shangrla.C04.wrong_winner_empty",
+    ],
     groups={"raire": (3000, 40000)},
     design_ref="DESIGN.md section 5, C04; Appendix F",
-    partial="in progress",
+    assumptions=[
+        "theorems are about `some`/`Res.ok` results of the fuelled model (termination of the search is not proved; "
+        "the driver runs with fuel 2000000 and the correspondence check reports any fuel exhaustion)",
+        "candidates duplicate-free and at least two; difficulty comparison a lawful total preorder (floats without NaN); "
+        "agap = 0; the -10 start of the lower bound is below every difficulty",
+        "wrong_winner_empty / valid_order_not_excluded: ballots well formed (no candidate and no position twice)",
+    ],
 )
